@@ -802,6 +802,7 @@ type workItem struct {
 	RC   *rcScn   `json:"rc,omitempty"`
 	Life *lifeScn `json:"life,omitempty"`
 	NP   *npScn   `json:"np,omitempty"`
+	Ext  *extScn  `json:"ext,omitempty"`
 }
 
 type workOut struct {
@@ -809,6 +810,7 @@ type workOut struct {
 	RC   *rcResult   `json:"rc,omitempty"`
 	Life *lifeResult `json:"life,omitempty"`
 	NP   *npResult   `json:"np,omitempty"`
+	Ext  *extResult  `json:"ext,omitempty"`
 }
 
 // histWorker: run the items of the file from index `from` on; "I idx" before, "S idx json" after each.
@@ -871,6 +873,17 @@ func histWorker(file string, from int64) {
 			r := runNP(*it.NP)
 			wo.NP = &r
 			if n := len(r.NP.Ops); n > 0 && r.NP.Ops[n-1].Status == 3 {
+				hung++
+			}
+		case it.Ext != nil:
+			if hung >= 2 {
+				wo.Ext = &extResult{Ext: it.Ext, Skipped: true}
+
+				break
+			}
+			r := runExt(*it.Ext)
+			wo.Ext = &r
+			if n := len(r.Ext.Ops); n > 0 && r.Ext.Ops[n-1].Status == 3 {
 				hung++
 			}
 		}
@@ -950,6 +963,11 @@ func runItems(self, dir, tag string, items []workItem) []workOut {
 			sc.Ops = append([]npOp{}, sc.Ops...)
 			sc.Ops[0].Status, sc.Ops[0].Res, sc.Ops[0].Detail = 4, -3, detail
 			outs[last].NP = &npResult{NP: &sc}
+		} else if it.Ext != nil {
+			sc := *it.Ext
+			sc.Ops = append([]extOp{}, sc.Ops...)
+			sc.Ops[0].Status, sc.Ops[0].Detail, sc.Ops[0].OProf = 4, detail, sc.Ops[0].Profile
+			outs[last].Ext = &extResult{Ext: &sc}
 		}
 		from = last + 1
 	}
